@@ -677,7 +677,10 @@ def f_foreign(rng, masked, own):
         t = "email:bob@example.com"
     else:
         t = ns + ":" + rng.choice(F_FOREIGN_BODY)
-    return t if t not in own else ns + ":zz"
+    t = t if t not in own else ns + ":zz"
+    if rng.random() < 0.12 and not t.startswith("tel:"):
+        t = t.title() if rng.random() < 0.5 else t.upper()      # lower-cased by the parser before anything else
+    return t
 
 
 def f_term(rng, masked, own, kind=None):
@@ -1471,7 +1474,7 @@ def run(ctx):
 
     purelib.run_pure(
         ctx, "c19", gen_cases, monitors, neighbours, nontrivial,
-        rule="parseSearchQuery on every string of length <=5 (quick) / <=7 (thorough) over {a,b,space,tab,comma,quote,colon,e-acute} with login rewriting, a sample of them without, and seeded random queries of 1..6 terms (vocabulary of plain/prefixed/upper-case/non-ASCII/invalid terms and random runes of all UTF-8 widths, 30% quoted, 10% broken quotes, 8% glued, doubled commas, unicode white space around); rewriteTag on the vocabulary and random words; normalizeTags (once and twice) on random lists with case/space/duplicate/length/non-letter/null-marker variations under maxTagCount in {1,2,3,5,16}; restrictedTagsEqual / filterRestrictedTags / stringSliceDelta / the fnd masked-namespace gate on random old/new lists against namespace sets {}, {email}, {email,tel}, {basic,x_1}, {a}, each call with its argument slices compared before/after (F, R: untouched; D: same elements); stateful scenarios TS on real 'me' and group topics above memverif with globals.immutableTagNS in {basic}, {email,tel}, {basic,email}, {tel}, {x_1,basic}, {} and maxTagCount in {16,4,6,3}: 400 hand-shaped scenarios (one ordinary + one reserved tag in every relative order in the old and the new list; rejected attempt followed by a read, by an accepted update, by unload + reload; non-owner; store failure) and seeded random scenarios of 5..12 requests aimed at the holder's current tags (34% change ordinary tags only, 18% replace / 10% drop / 10% add a reserved tag, same set, null marker, duplicates, random; raw spellings with case and white space, shuffled / ascending / descending; 6% store failure; 15% non-owner), {get tags}, unload, server-side UpdateTags, {sub new set.tags}, {acc new tags} with an authenticator adding a reserved tag; after EVERY request the reply, the stored row and the loaded topic's tags of every holder are compared with the model and the laws are evaluated; SEARCH layer (handler c19f: validators email + tel and the basic authenticator configured with add_to_tags, country codes US / DE / none): rewriteTag (WR) on a vocabulary of plain / e-mail / national digit-only and dotted phone / +phone / login / reserved / junk terms x country x login rewriting plus random digit strings and words; parseSearchQuery (QR) on every ordered pair of one term of each of 10 kinds (plain, e-mail, digits-only phone, +phone, login, quoted, masked-own, masked-foreign, reserved, junk) joined by AND and by OR, and random 1..4-term queries; whole searches (FS) on a real fnd topic above memverif whose FindUsers / FindTopics record their arguments: 60 sampled (quick) / all 180 hand-shaped scenarios (a masked own / foreign / quoted-foreign term next to a term of every kind, AND / OR / comma-space, first / second, as public or private query, ordinary or root session, topic tags empty then the user's) + the queries of the seeded demonstrations + seeded random scenarios of 2..5 query rounds ({set desc public|private|both}, {get sub} from the same / another / the root session, null marker, unload, topic tags assigned) against masked namespaces {org}, {org,dept}, {tel}, {email,tel}, {basic}, {} with 3..6 candidate accounts / topics (60% active, suspended, deleted) carrying the rewritten forms; after EVERY request the reply, the recorded store arguments, the topic's tags and the public / private queries it holds are compared with the model and the search laws are evaluated",
+        rule="parseSearchQuery on every string of length <=5 (quick) / <=7 (thorough) over {a,b,space,tab,comma,quote,colon,e-acute} with login rewriting, a sample of them without, and seeded random queries of 1..6 terms (vocabulary of plain/prefixed/upper-case/non-ASCII/invalid terms and random runes of all UTF-8 widths, 30% quoted, 10% broken quotes, 8% glued, doubled commas, unicode white space around); rewriteTag on the vocabulary and random words; normalizeTags (once and twice) on random lists with case/space/duplicate/length/non-letter/null-marker variations under maxTagCount in {1,2,3,5,16}; restrictedTagsEqual / filterRestrictedTags / stringSliceDelta / the fnd masked-namespace gate on random old/new lists against namespace sets {}, {email}, {email,tel}, {basic,x_1}, {a}, each call with its argument slices compared before/after (F, R: untouched; D: same elements); stateful scenarios TS on real 'me' and group topics above memverif with globals.immutableTagNS in {basic}, {email,tel}, {basic,email}, {tel}, {x_1,basic}, {} and maxTagCount in {16,4,6,3}: 400 hand-shaped scenarios (one ordinary + one reserved tag in every relative order in the old and the new list; rejected attempt followed by a read, by an accepted update, by unload + reload; non-owner; store failure) and seeded random scenarios of 5..12 requests aimed at the holder's current tags (34% change ordinary tags only, 18% replace / 10% drop / 10% add a reserved tag, same set, null marker, duplicates, random; raw spellings with case and white space, shuffled / ascending / descending; 6% store failure; 15% non-owner), {get tags}, unload, server-side UpdateTags, {sub new set.tags}, {acc new tags} with an authenticator adding a reserved tag; after EVERY request the reply, the stored row and the loaded topic's tags of every holder are compared with the model and the laws are evaluated; SEARCH layer (handler c19f: validators email + tel and the basic authenticator configured with add_to_tags, country codes US / DE / none): rewriteTag (WR) on a vocabulary of plain / e-mail / national digit-only and dotted phone / +phone / login / reserved / junk terms x country x login rewriting plus random digit strings and words; parseSearchQuery (QR) on every ordered pair of one term of each of 10 kinds (plain, e-mail, digits-only phone, +phone, login, quoted, masked-own, masked-foreign, reserved, junk) joined by AND and by OR, and random 1..4-term queries; the vocabulary and a sample of the pairs again in two more driver processes where a rewriter is NOT configured to index (tel add_to_tags off; email and basic add_to_tags off: law rewritten-only-when-configured); whole searches (FS) on a real fnd topic above memverif whose FindUsers / FindTopics record their arguments: 60 sampled (quick) / all 180 hand-shaped scenarios (a masked own / foreign / quoted-foreign term next to a term of every kind, AND / OR / comma-space, first / second, as public or private query, ordinary or root session, topic tags empty then the user's) + the queries of the seeded demonstrations + seeded random scenarios of 2..5 query rounds ({set desc public|private|both}, {get sub} from the same / another / the root session, null marker, unload, topic tags assigned) against masked namespaces {org}, {org,dept}, {tel}, {email,tel}, {basic}, {} with 3..6 candidate accounts / topics (60% active, suspended, deleted) carrying the rewritten forms; after EVERY request the reply, the recorded store arguments, the topic's tags and the public / private queries it holds are compared with the model and the search laws are evaluated",
         trusted=["harness/overlay/server/zz_verif_c19_test.go (calls parseSearchQuery, rewriteTag, normalizeTags, filterRestrictedTags, restrictedTagsEqual, stringSliceDelta of package main; installs one fake validator and one fake authenticator so that rewriting is deterministic; request G restates the two-line gate expression of topic.go:2434-2442)",
                  "harness/runner/r_c19.ml: UTF-8 <-> rune list conversion (Go range-loop decoding), unicode tables of the Go toolchain instantiate the Section variables lower/is_letter/is_digit/is_number; their hypotheses are checked on all 0x110000 code points by the driver request UH on every run",
                  "harness/overlay/server/zz_verif_c19x_test.go (scenario driver: real hub / topics / sessions / store mappers above memverif; sessions are attached on demand before a {set}/{get}; unload = {leave} of every session + the hub.unreg message of the idle timer; server-side tag change = store.Users.UpdateTags while the topic is not loaded; fake authenticator 'verifx' whose AddRecord appends the scenario's tags to rec.Tags as auth/basic does; the token authenticator is initialised with a fixed key; one failing adapter call injected through memverif.SetFault)",
